@@ -49,12 +49,14 @@ theorem addBodyRest_shape (expOk : List Char → Bool) {s s' : St} {body : List 
     split at he
     · cases he
     · split at he
+      · cases he
       · split at he
-        · cases he
-        · cases he; exact ⟨rfl, rfl, rfl, Or.inl rfl⟩
-      · split at he
-        · cases he; exact ⟨rfl, rfl, rfl, Or.inl rfl⟩
-        · cases he
+        · split at he
+          · cases he
+          · cases he; exact ⟨rfl, rfl, rfl, Or.inl rfl⟩
+        · split at he
+          · cases he; exact ⟨rfl, rfl, rfl, Or.inl rfl⟩
+          · cases he
 
 theorem addBody_keys (expOk : List Char → Bool) {s s' : St} {body : List Char} {i : Nat} {ct : CodeType}
     (h : Started s) (he : s.addBody expOk body i = .ok (s', ct)) :
